@@ -347,8 +347,52 @@ def is_const_obs(z):
     return fobs("is_constant")(z)
 
 
+# ------------------------------------------------------------------------------------------------ the compatibility relation itself
+# Every store site above takes `is_compatible` from the library (uninterpreted there).  Here the real is_compatible_type is verified against
+# the meaning the property gives it: equal types; a user type and one of its descendants; int into int / real, real into real with
+# intersecting intervals (None = unbounded) -- for a constant value (degenerate interval [v, v]) that is "v lies within the bounds".
+class CompatibleType(Unit):
+    prop = "C23"
+    name = "is_compatible_type"
+    doc = "numeric: same numeric family (int into real allowed) and intersecting intervals, a missing bound = unbounded; a constant is compatible iff it lies within the bounds"
+
+    def target(self):
+        import unified_planning.model.types as _ty
+        return _ty.is_compatible_type
+
+    def configure(self, eng):
+        from contracts import c15 as _c15
+        self._c15 = _c15
+        eng.axioms += _c15.type_axioms()
+
+    def setup(self, eng, st):
+        c = self._c15
+        tl, tr = c.Type15.fresh("t_left"), c.Type15.fresh("t_right")
+        st.assume(tl.z != c.Type15.null, tr.z != c.Type15.null)
+        return [tl, tr], {}, dict(tl=tl, tr=tr)
+
+    def post(self, eng, ctx, st, out):
+        if out[0] != "return":
+            return
+        c = self._c15
+        l, r = ctx["tl"].z, ctx["tr"].z
+        res = zbool(eng.as_bool_value(st, out[1]))
+        numeric_pair = z3.Or(z3.And(c.is_int(l), c.is_int(r)), z3.And(c.is_real(l), c.is_real(r)), z3.And(c.is_real(l), c.is_int(r)))
+        disjoint = z3.Or(z3.And(z3.Not(c.ubnone(r)), z3.Not(c.lbnone(l)), c.ubR(r) < c.lbR(l)),
+                         z3.And(z3.Not(c.lbnone(r)), z3.Not(c.ubnone(l)), c.lbR(r) > c.ubR(l)))
+        user_pair = z3.And(c.is_user(l), c.is_user(r))
+        st.oblige("numeric types (l != r): compatible iff the intervals intersect (a missing bound is unbounded)",
+                  z3.Implies(z3.And(l != r, numeric_pair), res == z3.Not(disjoint)))
+        st.oblige("a constant value v (type [v, v]) is compatible with a numeric type iff lower <= v <= upper",
+                  z3.Implies(z3.And(l != r, numeric_pair, z3.Not(c.lbnone(r)), z3.Not(c.ubnone(r)), c.lbR(r) == c.ubR(r)),
+                             res == z3.And(z3.Or(c.lbnone(l), c.lbR(l) <= c.lbR(r)), z3.Or(c.ubnone(l), c.lbR(r) <= c.ubR(l)))))
+        st.oblige("different families are never compatible (Boolean / time with anything else, real into int, numeric with user types)",
+                  z3.Implies(z3.And(l != r, z3.Not(numeric_pair), z3.Not(user_pair)), z3.Not(res)))
+        st.oblige("equal types are compatible", z3.Implies(l == r, res))
+
+
 import unified_planning.model.mixins.timed_conds_effs as tce
-UNITS = [SetInitialValue(), AddFluent(), AddEffect("add_effect"), AddEffect("add_increase_effect"), AddEffect("add_decrease_effect"),
+UNITS = [CompatibleType(), SetInitialValue(), AddFluent(), AddEffect("add_effect"), AddEffect("add_increase_effect"), AddEffect("add_decrease_effect"),
          AddEffectInstance(), ActionInstanceInit(),
          AddEffect("add_effect", tce.TimedCondsEffs, timed=True), AddEffect("add_increase_effect", tce.TimedCondsEffs, timed=True),
          AddEffect("add_decrease_effect", tce.TimedCondsEffs, timed=True),
@@ -383,6 +427,28 @@ def _flat(x):
             out.append((repr(k), sorted(map(repr, v)) if isinstance(v, (set, list, dict)) else repr(v)))
         return out
     return list(x)
+
+
+def compat_oracle(t, vt):
+    """independent reading of `a value of type vt may be stored where type t is declared` (not the library's is_compatible_type): same type;
+    a user type and one of its descendants; int into int / real and real into real with intersecting intervals (None = unbounded)"""
+    if t is vt:
+        return True
+    if t.is_user_type() and vt.is_user_type():
+        x = vt
+        while x is not None:
+            if x is t:
+                return True
+            x = x.father
+        return False
+    num = (t.is_int_type() and vt.is_int_type()) or (t.is_real_type() and (vt.is_real_type() or vt.is_int_type()))
+    if not num:
+        return False
+    if vt.upper_bound is not None and t.lower_bound is not None and vt.upper_bound < t.lower_bound:
+        return False
+    if vt.lower_bound is not None and t.upper_bound is not None and vt.lower_bound > t.upper_bound:
+        return False
+    return True
 
 
 def bounded(tier, seed):
@@ -424,7 +490,7 @@ def bounded(tier, seed):
                 if t.is_int_type() or t.is_real_type():
                     lo = t.lower_bound if t.lower_bound is not None else (t.upper_bound - 3 if t.upper_bound is not None else 0)
                     return lo if t.is_int_type() else Fraction(lo)
-                return rng.choice([o for o in objs if t.is_compatible(o.type)])
+                return rng.choice([o for o in objs if compat_oracle(t, o.type)])
             for t in rng.sample(types, rng.randint(0, 4)):
                 # mostly a value the type accepts (so that the default is stored and later inherited), sometimes any value
                 tdefaults[t] = compatible_const(t) if rng.random() < 0.7 else pick_value()[0]
@@ -436,7 +502,7 @@ def bounded(tier, seed):
                 except Exception:  # noqa
                     exp_ok = False
                     break
-                if not (ve.is_constant() and t.is_compatible(ve.type)):
+                if not (ve.is_constant() and compat_oracle(t, ve.type)):
                     exp_ok = False
             evals += 1
             try:
@@ -465,7 +531,7 @@ def bounded(tier, seed):
                 if use_default:
                     try:
                         (ve,) = em.auto_promote(v)
-                        exp = ve.is_constant() and t.is_compatible(ve.type)
+                        exp = ve.is_constant() and compat_oracle(t, ve.type)
                     except Exception:  # noqa
                         exp = False
                 try:
@@ -494,7 +560,7 @@ def bounded(tier, seed):
                     bad("add_fluent without default rejected", {"fluent_type": repr(t), "error": repr(ex)})
                     continue
                 dv = pr.fluents_defaults.get(f)
-                if dv is not None and not (dv.is_constant() and t.is_compatible(dv.type)):
+                if dv is not None and not (dv.is_constant() and compat_oracle(t, dv.type)):
                     bad("add_fluent stored an inherited default that is not compatible with the fluent's type",
                         {"fluent_type": repr(t), "stored_default": repr(dv), "initial_defaults": {repr(k2): repr(v2) for k2, v2 in pr.initial_defaults.items()}})
             # ---- set_initial_value
@@ -511,7 +577,7 @@ def bounded(tier, seed):
                 nontrivial.add(("siv", repr(f.type), repr(v)))
                 try:
                     (ve,) = em.auto_promote(v)
-                    exp = ve.is_constant() and f.type.is_compatible(ve.type)
+                    exp = ve.is_constant() and compat_oracle(f.type, ve.type)
                 except Exception:  # noqa
                     exp = False
                 try:
@@ -533,7 +599,7 @@ def bounded(tier, seed):
                     ivs[("default", f)] = v
             for k_, v_ in ivs.items():
                 ft = k_.type if not isinstance(k_, tuple) else k_[1].type
-                if not v_.is_constant() or not ft.is_compatible(v_.type):
+                if not v_.is_constant() or not compat_oracle(ft, v_.type):
                     bad("stored initial value is not a compatible constant", {"fluent": repr(k_), "value": repr(v_)})
             # ---- effects
             a = InstantaneousAction("a", x=Loc)
@@ -558,7 +624,7 @@ def bounded(tier, seed):
                 nontrivial.add((where, kind, repr(f.type), repr(v)))
                 try:
                     (ve,) = em.auto_promote(v)
-                    compatible = f.type.is_compatible(ve.type)
+                    compatible = compat_oracle(f.type, ve.type)
                 except Exception:  # noqa
                     compatible = False
                 try:
@@ -580,11 +646,11 @@ def bounded(tier, seed):
             for act in (a, d):
                 effs = act.effects if not isinstance(act.effects, dict) else [e for es in act.effects.values() for e in es]
                 for e in effs:
-                    if not e.fluent.type.is_compatible(e.value.type):
+                    if not compat_oracle(e.fluent.type, e.value.type):
                         bad("stored effect value incompatible with its fluent", {"effect": repr(e)})
             for es in pr.timed_effects.values():
                 for e in es:
-                    if not e.fluent.type.is_compatible(e.value.type):
+                    if not compat_oracle(e.fluent.type, e.value.type):
                         bad("stored timed effect value incompatible with its fluent", {"effect": repr(e)})
             # ---- ActionInstance
             b = InstantaneousAction("b", x=Loc, n=IntType(0, 5), r=RealType(), s=Sub)
@@ -593,7 +659,7 @@ def bounded(tier, seed):
                 evals += 1
                 try:
                     pe = em.auto_promote(vals)
-                    exp = all(p.type.is_compatible(v_.type) and v_.is_constant() for p, v_ in zip(b.parameters, pe))
+                    exp = all(compat_oracle(p.type, v_.type) and v_.is_constant() for p, v_ in zip(b.parameters, pe))
                 except Exception:  # noqa
                     exp = False
                 try:
